@@ -185,6 +185,11 @@ class OperatorMapper:
         if operation is operator.le or operator_name == "le":
             return left <= right
         if operation is operator.ne or operator_name == "ne":
+            # NULL-safe: in memory a missing value (None) is different from every value
+            if hasattr(left, "is_distinct_from"):
+                return left.is_distinct_from(right)
+            if hasattr(right, "is_distinct_from"):
+                return right.is_distinct_from(left)
             return left != right
 
         raise UnsupportedOperatorError(f"Unknown operator: {operation}")
